@@ -503,6 +503,29 @@ impl<'a> VisitMut for HofPass<'a> {
                 }
             }
         }
+        // E.inspect(|p| B)  ==>  match E { Ok(v) => { { let p = &v; B }; Ok(v) } Err(e) => Err(e) }   (Result::inspect)
+        if let Expr::MethodCall(mc) = e {
+            if mc.method == "inspect" && mc.args.len() == 1 {
+                if let Expr::Closure(cl) = &mc.args[0] {
+                    if cl.inputs.len() == 1 {
+                        let recv = &mc.receiver;
+                        let pat = &cl.inputs[0];
+                        let body = &cl.body;
+                        self.counter += 1;
+                        let v = quote::format_ident!("__fjx_v{}", self.counter);
+                        let er = quote::format_ident!("__fjx_e{}", self.counter);
+                        let new: Expr = parse_quote! {
+                            match (#recv) {
+                                Ok(#v) => { { let #pat = &#v; #body; } Ok(#v) }
+                                Err(#er) => Err(#er),
+                            }
+                        };
+                        *e = new;
+                        self.log.push("R-HOF Result::inspect(closure) beta-reduced".into());
+                    }
+                }
+            }
+        }
         // R-HOF (dashmap): M.entry(K).and_modify(|x| B).or_insert(V)
         if let Expr::MethodCall(oi) = e {
             if oi.method == "or_insert" && oi.args.len() == 1 {
